@@ -32,7 +32,15 @@ fn check_bytes(t: &TypeOps, b: &[u8], g: &mut Gen, ctx: &mut Ctx) -> CaseResult 
         ctx.sample_with(|| format!("{} <- {}", t.name, hex_trunc(b, 64)));
     }
     // every proper prefix is rejected
-    let cuts: Vec<usize> = if b.len() <= 512 {
+    let cuts: Vec<usize> = if ctx.quiet && b.len() > 24 {
+        // libFuzzer target: a sample of cut points per execution (the campaign supplies volume)
+        let mut v: Vec<usize> = (0..8).collect();
+        v.extend((b.len() - 8)..b.len());
+        for _ in 0..8 {
+            v.push(g.below(b.len()));
+        }
+        v
+    } else if b.len() <= 512 {
         (0..b.len()).collect()
     } else {
         let mut v: Vec<usize> = (0..64).collect();
